@@ -20,6 +20,10 @@
    * strings -> STRING (denoted bytes); binary fields: standard padded base64 unless NoBase64Binary;
      String2Int64: a JSON string whose content is a number lexeme is accepted for byte/i16/i32/i64/double.
    * true/false only for BOOL; any other kind combination is an error (the ERR_DISMATCH_TYPE family).
+   * EnableValueMapping + api.js_conv on a scalar field (j2t_field_vm): the number may be given as a JSON number or as a
+     string holding its lexeme ("" = zero value); a string field also takes a number's lexeme text.  The code has two quirks
+     there (an i16 field gets an extra byte: missing `break`; a null member is an error instead of being omitted), kept
+     behind [p_vm_quirks] for finding classification.
    * nesting: the FSM stack has 4096 slots; the value at nesting level s (root = 1) needs s <= 4095.
    * the top-level value is parsed as a PREFIX of the text (trailing bytes are never looked at). *)
 From Coq Require Import ZArith List Bool.
@@ -43,12 +47,13 @@ Record fld := mkFld {
   f_id : Z;
   f_keys : list (list Z);   (* the JSON keys that select the field: alias and/or name, per MapFieldWay *)
   f_ty : ty;
-  f_req : Z                 (* 0 default, 1 required, 2 optional — not used by C02 (see C16) *)
+  f_req : Z;                (* 0 default, 1 required, 2 optional — not used by C02 (see C16) *)
+  f_vm : bool               (* annotated api.js_conv: value mapping applies when EnableValueMapping is set *)
 }.
 Definition sdef := list fld.
 Definition defs := list sdef.
 
-Record jopts := mkOpts { o_disallow_unknown : bool; o_str2int : bool; o_nob64 : bool }.
+Record jopts := mkOpts { o_disallow_unknown : bool; o_str2int : bool; o_nob64 : bool; o_vm : bool (* EnableValueMapping *) }.
 
 Definition find_field (sd : sdef) (k : list Z) : option fld :=
   find (fun f => existsb (zlist_eqb k) (f_keys f)) sd.
@@ -165,9 +170,10 @@ Definition num_drift (t : ty) (l : list Z) : res :=
 
 Record policy := mkPolicy {
   p_num : ty -> list Z -> res;
-  p_key_prefix : bool          (* map keys of number type: parse the longest number prefix and ignore the rest (code) instead of the whole key (strict) *)
+  p_key_prefix : bool;         (* map keys of number type: parse the longest number prefix and ignore the rest (code) instead of the whole key (strict) *)
+  p_vm_quirks : bool           (* api.js_conv as the code does it: a null member is an error instead of being omitted, and an i16 field gets one extra byte (missing break) *)
 }.
-Definition strict : policy := mkPolicy num_strict false.
+Definition strict : policy := mkPolicy num_strict false false.
 
 Definition max_level : Z := 4095.
 
@@ -183,6 +189,36 @@ Section Conv.
       if p_key_prefix P then match scan_num N0 kb with Some (l, _) => p_num P k l | None => Err E_NUM end
       else if num_okb kb then p_num P k kb else Err E_NUM
     | _ => Err E_KEYTYPE
+    end.
+
+  (* api.js_conv (native/thrift.c j2t_field_vm, VM_JSCONV): the field accepts its number as a JSON number or as a string
+     holding the number lexeme ("" = the zero value); a string field also accepts a number and takes its lexeme text.
+     Only scalar non-bool types are supported. *)
+  Definition vm_zero (t : ty) : res :=
+    match t with
+    | TDouble => Ok (enc_int 8 0)
+    | _ => match int_width t with Some (n, _) => Ok (enc_int n 0) | None => Err E_KIND end
+    end.
+  Definition vm_extra (t : ty) (r : res) : res :=      (* finding 208 *)
+    match t, r with
+    | TI16, Ok b => if p_vm_quirks P then Ok (b ++ skipn 1 b) else r
+    | _, _ => r
+    end.
+  Definition vm_val (t : ty) (j : json) : res :=
+    match j with
+    | JStr x =>
+      match t with
+      | TString | TBinary => Ok (str_bytes x)
+      | _ => if is_num_ty t then
+               (match x with [] => vm_zero t | _ => if num_okb x then vm_extra t (p_num P t x) else Err E_NUM end)
+             else Err E_KIND
+      end
+    | JNum l =>
+      match t with
+      | TString | TBinary => if num_okb l then Ok (str_bytes l) else Err E_NUM
+      | _ => if is_num_ty t then vm_extra t (p_num P t l) else Err E_KIND
+      end
+    | _ => Err E_KIND
     end.
 
   Fixpoint j2t_val (t : ty) (s : Z) (j : json) {struct j} : res :=
@@ -219,9 +255,13 @@ Section Conv.
           if nonempty ms && (max_level <=? s) then Err E_DEPTH else
           rbind (rconcat (fun m => match find_field sd (fst m) with
                                    | None => if o_disallow_unknown o then Err E_UNKNOWN else Ok []
-                                   | Some f => if is_null (snd m) then Ok []
-                                               else rbind (j2t_val (f_ty f) (s + 1) (snd m))
-                                                          (fun vb => Ok (tcode (f_ty f) :: enc_int 2 (f_id f) ++ vb))
+                                   | Some f =>
+                                     if o_vm o && f_vm f then
+                                       (if is_null (snd m) then (if p_vm_quirks P then Err E_KIND else Ok [])
+                                        else rbind (vm_val (f_ty f) (snd m)) (fun vb => Ok (tcode (f_ty f) :: enc_int 2 (f_id f) ++ vb)))
+                                     else if is_null (snd m) then Ok []
+                                     else rbind (j2t_val (f_ty f) (s + 1) (snd m))
+                                                (fun vb => Ok (tcode (f_ty f) :: enc_int 2 (f_id f) ++ vb))
                                    end) ms)
                 (fun body => Ok (body ++ [0]))
         end
@@ -304,6 +344,10 @@ Section Denote.
   Definition dbl_ok (b : Z) : bool :=
     num_okb (dlex b) && f64_is_finite b && match lex2f64 (dlex b) with Some b' => b' =? b | None => false end.
 
+  (* types on which api.js_conv is defined and agrees with the plain conversion of the canonical JSON *)
+  Definition vm_ty_ok (t : ty) : bool :=
+    match t with TByte | TI16 | TI32 | TI64 | TDouble | TString => true | _ => false end.
+
   Definition is_key_ty (k : ty) : bool :=
     match k with TString | TBinary | TByte | TI16 | TI32 | TI64 | TDouble => true | _ => false end.
 
@@ -325,8 +369,9 @@ Section Denote.
         | Some sd =>
           forallb (fun f => match find_id sd (fst f) with
                             | Some fd => (f_id fd =? fst f) && in_sb 16 (fst f) && jbytes_okb (key1 fd) &&
+                                         (negb (f_vm fd) || vm_ty_ok (f_ty fd)) &&
                                          match find_field sd (key1 fd) with
-                                         | Some fd' => (f_id fd' =? f_id fd) && ty_eqb (f_ty fd') (f_ty fd)
+                                         | Some fd' => (f_id fd' =? f_id fd) && ty_eqb (f_ty fd') (f_ty fd) && Bool.eqb (f_vm fd') (f_vm fd)
                                          | None => false
                                          end && conf (f_ty fd) (snd f)
                             | None => false
